@@ -21,6 +21,7 @@ StrCats ==
   IN UNION {per(d) : d \in 1..4}
 NumCats  == {[catKind |-> "num", cats |-> [j \in 1..n |-> Leaf(Num(2, j))]] : n \in 1..3}
             \cup {[catKind |-> "num", cats |-> <<Leaf("n:-3"), Leaf("n:0"), Leaf("n:2.5"), Leaf("n:0.1")>>]}     \* a zero that is not the first label
+            \cup {[catKind |-> "num", cats |-> <<Leaf("n:0"), Leaf("n:0.5"), Leaf("n:1")>>]}                       \* ... and one that is
 DateSeqs == {<<"d:1900-02-28">>, <<"d:1900-02-28", "d:1900-03-01">>, <<"d:1900-03-01", "d:1900-02-28", "d:1900-01-01">>,
              <<"d:1899-12-31", "d:1900-01-01", "d:1900-02-28", "d:1900-03-01", "d:1900-03-02">>,
              <<"d:2000-02-29", "d:2024-12-31", "d:1904-01-01">>}
